@@ -31,8 +31,14 @@ def plan(tier, seed):
                     if quick and cc == "cubic" and size in (3, 4):
                         continue
                     cfgs.append(dict(kind="e2e", cc=cc, delays=delays, est=est, size=size, K=12 if quick else 20))
+    # delays and estimates that are not binary fractions (timer arithmetic must not depend on exact float identities),
+    # and a zero-delay path (RTT samples of exactly 0)
+    for cc in ("reno", "cubic"):
+        for (delays, est) in (([0.3, 0.1], 0.3), ([0.3, 0.1], 0.7), ([0.1, 0.2], 0.1), ([0, 0], 0.25), ([0, 0], 4)):
+            for size in ((2, 4) if quick else (1, 2, 3, 4, 6)):
+                cfgs.append(dict(kind="e2e", cc=cc, delays=delays, est=est, size=size, K=12 if quick else 16))
     return {"cfgs": cfgs, "budget": 3 if quick else 4,
-            "bound": "sink: sequences of <=%d segments; end to end: flows of 1..%d MSS, path delays (1,1),(1,3),(3,5), initial RTT estimate .25/.5/4, "
+            "bound": "sink: sequences of <=%d segments; end to end: flows of 1..%d MSS, path delays (1,1),(1,3),(3,5),(.3,.1),(.1,.2),(0,0), initial RTT estimate .1/.25/.3/.5/.7/4, "
                      "<=%d faults (drop, or delivery delayed by 4) among the first %d data / ACK transmissions" % (6 if quick else 7, 6 if quick else 8, 3 if quick else 4, 12 if quick else 20)}
 
 
